@@ -670,7 +670,7 @@ func c04Oracle(dir string, buf []byte, srcs []*c04Built, legacy []bool, tainted,
 	var rd *v2.FileReader
 	var openErr error
 	if !v.judge("NewFileReader", size, c04Slack, func() callResult {
-		return guardedCall(c04Watchdog, func() { rd, openErr = v2.NewFileReader(path) })
+		return guardedCall(pbt.Bound(c04Watchdog), func() { rd, openErr = v2.NewFileReader(path) })
 	}) {
 		return finish()
 	}
@@ -682,7 +682,7 @@ func c04Oracle(dir string, buf []byte, srcs []*c04Built, legacy []bool, tainted,
 		var idx map[string][]byte
 		var err error
 		if !v.judge("LoadIndex", size, c04Slack, func() callResult {
-			return guardedCall(c04Watchdog, func() { idx, _, err = rd.LoadIndex() })
+			return guardedCall(pbt.Bound(c04Watchdog), func() { idx, _, err = rd.LoadIndex() })
 		}) {
 			return finish()
 		}
@@ -711,7 +711,7 @@ func c04Oracle(dir string, buf []byte, srcs []*c04Built, legacy []bool, tainted,
 		// 3. ReadAllBlocks
 		var blocks []*v2.Block
 		if !v.judge("ReadAllBlocks", size, c04Slack, func() callResult {
-			return guardedCall(c04Watchdog, func() { blocks, err = rd.ReadAllBlocks() })
+			return guardedCall(pbt.Bound(c04Watchdog), func() { blocks, err = rd.ReadAllBlocks() })
 		}) {
 			return finish()
 		}
@@ -747,14 +747,14 @@ func c04Oracle(dir string, buf []byte, srcs []*c04Built, legacy []bool, tainted,
 		}
 		// 4. ScanBlockHeaders
 		if !v.judge("ScanBlockHeaders", size, c04Slack, func() callResult {
-			return guardedCall(c04Watchdog, func() { _, _ = rd.ScanBlockHeaders() })
+			return guardedCall(pbt.Bound(c04Watchdog), func() { _, _ = rd.ScanBlockHeaders() })
 		}) {
 			return finish()
 		}
 		// 5. CalculateFragmentation
 		var frag float64
 		if !v.judge("CalculateFragmentation", size, c04Slack, func() callResult {
-			return guardedCall(c04Watchdog, func() { frag, _, _, err = rd.CalculateFragmentation() })
+			return guardedCall(pbt.Bound(c04Watchdog), func() { frag, _, _, err = rd.CalculateFragmentation() })
 		}) {
 			return finish()
 		}
@@ -764,7 +764,7 @@ func c04Oracle(dir string, buf []byte, srcs []*c04Built, legacy []bool, tainted,
 	}
 	// 6. ReadSwampName
 	if !v.judge("ReadSwampName", size, c04Slack, func() callResult {
-		return guardedCall(c04Watchdog, func() { _, _ = v2.ReadSwampName(path) })
+		return guardedCall(pbt.Bound(c04Watchdog), func() { _, _ = v2.ReadSwampName(path) })
 	}) {
 		return finish()
 	}
@@ -773,7 +773,7 @@ func c04Oracle(dir string, buf []byte, srcs []*c04Built, legacy []bool, tainted,
 	loadOnce := func() (callResult, beacon.Beacon) {
 		os.WriteFile(cbase+".hyd", buf, 0o644)
 		bc := beacon.New()
-		r := guardedCall(c04Watchdog, func() {
+		r := guardedCall(pbt.Bound(c04Watchdog), func() {
 			c := chronicler.NewV2WithName(cbase, 2, "")
 			c.Load(bc)
 			c.Close()
